@@ -120,6 +120,12 @@ def gather(ctx: Ctx):
         for shape in ("Muss{c}[1]", "Muss[1]{c}", "Muss [1] Soll{c}[2]", "Muss[1]{c}Soll[2]", "X{c}[1]", "X[1]{c}", "Muss{c}", "{c}Muss[1]", "[1]{c}U[2]", "{c}[1]", "[1]{c}",
                       "Muss [1]{c}U [2]", "Muss{c} [1]", "Muss [1] {c}"):
             cases.append(("exotic-blank", shape.replace("{c}", c)))
+    # near misses of every kind of atom: time conditions outside UB1-3 or in another case / spacing, package and repeatability spellings
+    for w in (["UB%d" % d for d in range(10)] + ["UB", "UB12", "UB01", "ub1", "Ub2", "uB3", "UB 1", "U B1", "UB1 ", " UB3", "UBA", "UB-1", "B1", "U1"]
+              + ["1P", "1p", "12 P", "P", "P1", "1PP", "01P", "1P0..1", "1P0..0", "1P2..1", "1P..2", "1P1.2", "1P1...2", "1P1..2..3", "1P 1..2", "1P1 ..2", "1P1.. 2", "1P-1..2", "1P1..02"]):
+        cases.append(("atom-variants", "[" + w + "]"))
+        cases.append(("atom-variants", "Muss [" + w + "]"))
+        cases.append(("atom-variants", "[1] U [" + w + "]"))
     cases.append(("deep", "(" * 300 + "[1]" + ")" * 300))
     cases.append(("deep", "(" * 300 + "[1]" + ")" * 299))
     cases.append(("long-key", "[" + "7" * 4400 + "]"))
@@ -149,7 +155,7 @@ async def _is_valid(s: str):
 
 def run(ctx: Ctx) -> None:
     ctx.rule = ("valid condition / AHB expressions, AHB expressions with one corrupted part, 1-3 character-level mutations, all strings up to length "
-                "3/4 over a 15-symbol alphabet (exhaustive), random strings, a Unicode stream, every non-WS blank character (\\s / str.isspace) in 14 positions; three entry points + validity check each; "
+                "3/4 over a 15-symbol alphabet (exhaustive), random strings, a Unicode stream, near misses of time-condition / package / repeatability atoms; every non-WS blank character (\\s / str.isspace) in 14 positions; three entry points + validity check each; "
                 "non-trivial = not the empty string; distinct strings counted")
     ctx.coverage["generated_changed"] = extract.regenerate(["CharClasses", "Grammar"])
     ok = ctx.lean_build(MODULES)
